@@ -266,3 +266,8 @@ def run(repo: Repo, rep: Report, tier: str) -> None:
     wr = repo.module("layout.wire_router")
     pos_reads = [n for f in wr.funcs.values() for n in walk_local(f.node) if isinstance(n, ast.Attribute) and n.attr == "position"]
     rep.check(not pos_reads, "C19-R4", "wire colouring (wire_router) never reads a position", f"{len(pos_reads)} reads of .position", wr.rel + ":1")
+
+    # ---------------- R5 ---------------------------------------------------------------
+    from .shared import borrow as _borrow
+    _borrow(repo, rep, "C17", "C17-R2", "C19-R5", "the result does not depend on the working directory: an import is looked up next to the importing file before any cwd-relative entry",
+            select=lambda o: "importing file" in o.construct or "list order" in o.construct or "directory of that file" in o.construct, floor=3)
